@@ -44,10 +44,20 @@ def norm_dump(text: str):
     try:
         tree = ast.parse(text)
     except (SyntaxError, ValueError, RecursionError, MemoryError):
-        try:
-            tree = ast.parse(textwrap.dedent(text))
-        except (SyntaxError, ValueError, RecursionError, MemoryError):
-            return None
+        # an indented fragment: read it as the body of a block, the way Python would (textwrap.dedent would also strip the lines inside multi-line literals,
+        # or refuse to dedent at all when such a line is indented less than the code)
+        tree = None
+        first = next((l for l in text.split("\n") if l.strip()), "")
+        if first[:1] in (" ", "\t"):
+            try:
+                tree = ast.Module(body=ast.parse("if True:\n" + text).body[0].body, type_ignores=[])
+            except (SyntaxError, ValueError, RecursionError, MemoryError, IndexError, AttributeError):
+                tree = None
+        if tree is None:
+            try:
+                tree = ast.parse(textwrap.dedent(text))
+            except (SyntaxError, ValueError, RecursionError, MemoryError):
+                return None
     for node in ast.walk(tree):
         # a bare string statement is a doc-string to black wherever it stands (its value is discarded at run time)
         if isinstance(node, ast.Expr) and isinstance(node.value, ast.Constant) and isinstance(node.value.value, str):
